@@ -60,3 +60,22 @@ VH_ENTRY vh_readfeats() {
   }
   VH_END();
 }
+
+#ifdef VH_FEATSET
+// ---- readFeatureSettings (file-local in FeatureMap.cpp; exposed to the harness by the query): the value it returns becomes the
+// feature's largest settable value: it is the largest setting value read, as an unsigned 16-bit number, for every table content.
+extern uint16 vh_rfs(const byte *, FeatureSetting *, size_t) asm("_ZN12_GLOBAL__N_119readFeatureSettingsEPKhPN9graphite214FeatureSettingEm");
+VH_ENTRY vh_feat_settings() {
+  uint8_t *b = vh_bytes(NSET * 4);
+  FeatureSetting *s = vh_new<FeatureSetting>(NSET);
+  uint16 mx = vh_rfs(b, s, NSET);
+  uint16 ref = 0;
+  for (unsigned j = 0; j < NSET; ++j) {
+    uint16_t v = rd16(b + 4 * j);
+    if (v > ref) ref = v;
+    ASSERT((uint16_t)s[j].value() == v && s[j].label() == rd16(b + 4 * j + 2), "setting j holds the table's value and label");
+  }
+  ASSERT(mx == ref, "largest settable value = largest defined setting (unsigned 16-bit)");
+  VH_END();
+}
+#endif
